@@ -201,8 +201,9 @@ def main(argv: list[str]) -> int:
             continue
         seen_known.add(key)
         print(f"KNOWN-FINDING: property={prop} {k['what']}")
-    for b, path, msg in violations:
-        print(f"FAIL bucket={b} :: {msg}")
+    for i, (b, path, msg) in enumerate(violations):
+        if i < 8:
+            print(f"FAIL bucket={b} :: {msg}")
         print(f"VIOLATION property={prop} replay={path}")
     print(
         f"{prop} {tier}: evaluations={col.evaluations} distinct_nontrivial={len(col.nt_hashes)} "
